@@ -178,7 +178,7 @@ def c02(sc, tier, seed):
 
 
 def c06(sc, tier, seed):
-    return transition_check(sc, tier, seed, 'C06', ['MC_keyspace', 'MC_sort'], walks=['MC_keyspace_walk'], quick_n=26000, steer=('keys',),
+    return transition_check(sc, tier, seed, 'C06', ['MC_keyspace', 'MC_sort', 'MC_alias'], walks=['MC_keyspace_walk'], quick_n=39000, steer=('keys',),
                             rule='TLC enumerates MC_keyspace: 2 keys, each missing or one of 9 values (2 strings, 3 lists, 2 hashes, 2 sets; one- and two-element aggregates so that removing the last element is reached) x one well-formed instance of every data command per key (the WRONGTYPE cross product) + generic key commands (DEL UNLINK EXISTS TYPE TOUCH RENAME RENAMENX COPY KEYS with 16 glob patterns, RANDOMKEY, DBSIZE, SORT variants) + arity/unknown-command failures; FailedInert and WellFormed (no empty aggregate, one type per key) are checked by TLC on the ideal reading; every transition is replayed with full-state comparison before/after (that comparison is the inertness check on the real server).')
 
 
@@ -231,18 +231,59 @@ def txn_hammer_stage(v, sc, exe, tier, seed):
 
 
 def c09(sc, tier, seed):
-    return transition_check(sc, tier, seed, 'C09', ['MC_txn', 'MC_txn2'], 12000, extra_stage=txn_hammer_stage, rule=
+    return transition_check(sc, tier, seed, 'C09', ['MC_txn', 'MC_txn2'], 12000, extra_stage=lambda *a: (txn_hammer_stage(*a), gated_txn_stage(*a)), rule=
                             'TLC enumerates the tree of ALL programs of length 4 (so every shorter program as a prefix) of one connection over {MULTI, EXEC, DISCARD, WATCH, UNWATCH, 2 good commands, 2 commands failing at run time, unknown command, bad arity, a read} interleaved at every position with at most one command of a second connection (write / read / pop) - 41472 programs - checks QueuedInvisible, ResetAfterExec, ExecAllOrNothing, SessionIsolation and WatchIff on the ideal reading, and each program is replayed deterministically on two real connections: every reply, the full database state after every step, and at the end each connection\'s MULTI state / selected db / protocol / name are compared. MC_txn2: MULTI, two queued commands out of the five blocking commands (on a list with elements / a missing list) + a push + LLEN, EXEC, a read. Finally the transaction hammers of MC_conc (two connections running MULTI ... EXEC blocks of 2-4 commands into each other, against MGET / CLIENT INFO observers) run concurrently and each history is validated by TLC (Trace_Lin) with EXEC as one atomic step.')
 
 
 def c10(sc, tier, seed):
-    return transition_check(sc, tier, seed, 'C10', ['MC_watch', 'MC_watch2'], quick_n=10000,
+    return transition_check(sc, tier, seed, 'C10', ['MC_watch', 'MC_watch2'], quick_n=10000, extra_stage=gated_txn_stage,
                             rule='TLC enumerates every program [step] WATCH a [step] MULTI PING [step by the other connection] EXEC with exactly one free position filled by: every data command of the emulator aimed at the watched key (all types; in-place and replacing writes, reads, failing writes), issued by the watching or by the other connection, FLUSHDB/FLUSHALL, or the deadline passing (300 ms of real time) - from 17 initial states (watched key missing / string / list / hash / set / with TTL); WatchIff (EXEC replies nil iff the watched key was modified since WATCH) is checked by TLC on the ideal reading; every program is replayed on two real connections. MC_watch2: WATCH, two steps of the other connection - round trips that restore the key (RENAME away and back, DEL + SET, overwrite + restore, push + pop, COPY over itself, HSET / SADD and undo) and BITFIELD with one applied and one refused write - then MULTI PING EXEC, from a string / lists / hash / set.')
 
 
 def c14(sc, tier, seed):
     return transition_check(sc, tier, seed, 'C14', ['MC_multi', 'MC_multi2', 'MC_multi3'], walks=['MC_multi_walk'], quick_n=22000, walk_n=(400, 4000),
                             rule='TLC enumerates all 21952 programs of length 3 of two connections over {SELECT 0/1/15/16/-1, FLUSHDB, FLUSHALL, DBSIZE, SET/GET of a key name that holds different values in databases 0 and 1, KEYS *, CLIENT SETNAME/GETNAME, HELLO 3}, checks SessionIsolation, NamespaceIsolation and FlushGlobal on the ideal reading, and replays every program on real connections (replies, all databases after every step, and finally each connection\'s selected db / protocol / name / MULTI state); plus random walks of depth 8 of three connections (also HELLO 2/4, MULTI/EXEC, invalid names).')
+
+
+def gated_txn_cases(out):
+    """Forced interleavings of transactions (MC_conc: GatedTxn): prelude + held EXEC of connection 1, program Y of connection 2."""
+    cs = []
+    for op in tlc_json_lines(out):
+        if 'gatedprog' in op:
+            for g in sorted(op['gatedprog'], key=lambda g: json.dumps(g, sort_keys=True)):
+                cs.append({'id': len(cs), 'pre': op['pre'], 'progs': {'1': g['x'], '2': g['y']}, 'mode': 'gated', 'name': 'gated-txn'})
+            break
+    return cs
+
+
+def gated_txn_stage(v, sc, exe, tier, seed):
+    """C10 / C09: EXEC takes its watch decision and runs its queue as ONE step: the EXEC of a prepared transaction is held
+    where it first releases the data store lock (verif hook ds.unlocked) while another connection writes the watched
+    key (or reads the keys the transaction writes); TLC (Trace_Lin) searches the recorded history for a linearization."""
+    out, st = run_tlc(sc, 'MC_conc', mc_cfg('MC_conc', []), workers=1, timeout=600, tag='conc-gatedtxn',
+                      extra=['-simulate', 'num=1', '-depth', '5', '-seed', str(seed)])
+    if st['rc'] != 0:
+        raise Inconclusive('TLC failed on MC_conc:\n' + '\n'.join(st['tail'][-20:]))
+    cases = gated_txn_cases(out)
+    if not cases:
+        raise Inconclusive('MC_conc printed no gated transaction')
+    cases = [dict(c, id=i) for i, c in enumerate(cases * (1 if tier == 'quick' else 3))]
+    hists = run_conc(exe, sc, cases, tag='conc-gatedtxn')
+    ok = [h for h in hists if h['status'] == 'ok']
+    for h in hists:
+        if h['status'] in ('crash', 'noreply'):
+            v.record_violation(cases[h['id']], {'fail': {'status': h['status'], 'detail': h.get('detail', ''), 'cmd': 'held EXEC against a conflicting program'}, 'stderr': h.get('stderr', '')}, engine='conc')
+        elif h['status'] != 'ok':
+            v.inconclusive.append('conc case %s: %s' % (h['id'], h.get('detail')))
+    accepted, rejected, stats = validate_histories(sc, ok, open_devs(), tag='lin-gatedtxn')
+    for bad, ev in rejected:
+        v.record_violation({'history': bad, 'programs': cases[bad['id']]['progs'], 'mode': 'gated'},
+                           {'fail': {'status': 'viol', 'cmd': 'history %d (held EXEC)' % bad['id'],
+                                     'detail': 'no linearization with EXEC (watch decision + queue) as one atomic step: the search never got past event %d of %d' % (ev, len(bad['ev']))}},
+                           engine='trace_lin')
+    v.cov['traces_validated_against_impl'] += len(accepted) + len(rejected)
+    v.cov['engines']['conc_gated_transactions'] = {'histories': len(hists), 'accepted': len(accepted), 'rejected': len(rejected)}
+    v.cov['tlc_runs'].extend({'model': 'Trace_Lin (validation of held-EXEC histories)', **s_} for s_ in stats)
 
 
 def lin_check(sc, tier, seed, prop, walk_module, n_hist, depth, rule, assumptions=(), hammer_rounds=(2, 20)):
@@ -298,11 +339,19 @@ def lin_check(sc, tier, seed, prop, walk_module, n_hist, depth, rule, assumption
                 gx_first = {}
                 for g in pairs_:
                     gx_first.setdefault(json.dumps(g['x']), []).append(g)
-                pairs_ = [g for gs in gx_first.values() for g in gs[:4]]      # every X against four of the Y programs
+                # every X against five of the Y programs, those that touch one of X's arguments first
+                def shares(g):
+                    xa = set(json.dumps(a) for a in g['x'][1:])
+                    return any(json.dumps(a) in xa for cm in g['y'] for a in cm[1:])
+                pairs_ = [g for gs in gx_first.values() for g in sorted(gs, key=lambda g: not shares(g))[:5]]
             for g in pairs_:
                 cases.append({'id': len(cases), 'pre': op['pre'], 'progs': {'1': [g['x']], '2': g['y']}, 'mode': 'gated', 'name': 'gated'})
                 ngated += 1
             break
+    for g in gated_txn_cases(out):
+        g['id'] = len(cases)
+        cases.append(g)
+        ngated += 1
     hists = run_conc(exe, sc, cases)
     ok = [h for h in hists if h['status'] == 'ok']
     for h in hists:
